@@ -7,8 +7,10 @@ AllMetrics), `metrics.PeersetFilter`, `pubsubmon.Monitor.LatestMetrics`,
 
 Core Lean only (the driver links this file).
 
-Time: every metric carries `expired : Bool` (its expiry instant lies before /
-after "now"; the harness puts expiries hours away from the wall clock).
+Time: the state carries the clock `now` (integer instants, the harness uses
+milliseconds); `Op.advance d` moves it. A metric carries its expiry instant
+`expire`; it is expired at `now` iff `expire < now` (`time.Now().After(expDate)`,
+strict). So one metric is fresh at one check and expired at a later one.
 Not modelled: the float computation `phi(v, d) ≥ threshold` of the accrual
 detector. It is the explicit oracle `Params.orc` (op index, name, peer): the
 theorems quantify over every oracle; the harness forces it with the checker's
@@ -24,11 +26,14 @@ structure Metric where
   name    : Nat
   peer    : Nat
   valid   : Bool
-  expired : Bool
+  expire  : Nat
   deriving DecidableEq, Repr
 
+/-- `Metric.Expired` (api/types.go): `time.Now().After(time.Unix(0, m.Expire))` — strictly after. -/
+def Metric.expiredAt (m : Metric) (now : Nat) : Bool := decide (m.expire < now)
+
 /-- `Metric.Discard` (api/types.go). -/
-def Metric.discard (m : Metric) : Bool := !m.valid || m.expired
+def Metric.discard (m : Metric) (now : Nat) : Bool := !m.valid || m.expiredAt now
 
 /-- (metric name, peer) -/
 abbrev Key := Nat × Nat
@@ -76,8 +81,10 @@ structure State where
   af   : Key → Nat                -- Checker.alertedFor[peer][name]: stamp of the metric `cnt` refers to (0 = no entry)
   keys : List Key                 -- every (name, peer) that ever had a window, in order of first arrival
   ps   : Peerset
+  now  : Nat                      -- the wall clock (`time.Now()`)
 
-def State.init (ps : Peerset) : State := { win := fun _ => none, cnt := fun _ => 0, af := fun _ => 0, keys := [], ps := ps }
+def State.init (ps : Peerset) (t0 : Nat := 0) : State :=
+  { win := fun _ => none, cnt := fun _ => 0, af := fun _ => 0, keys := [], ps := ps, now := t0 }
 
 /-- Parameters: `DefaultWindowCap`, `MaxAlertThreshold`, and the accrual oracle. -/
 structure Params where
@@ -109,7 +116,7 @@ def State.rmMetrics (s : State) (k : Key) : State := { s with win := upd s.win k
 def latestValid (s : State) (n : Nat) : List Metric :=
   (s.keys.filter (fun k => k.1 == n)).filterMap (fun k =>
     match latestOf s k with
-    | some m => if m.discard then none else some m
+    | some m => if m.discard s.now then none else some m
     | none => none)
 
 /-- `metrics.PeersetFilter` -/
@@ -131,7 +138,7 @@ def failedK (P : Params) (i : Nat) (s : State) (k : Key) : Bool :=
     match w.latest with
     | none => true
     | some m =>
-      if !m.expired then false
+      if !m.expiredAt s.now then false
       else if w.count < accrualMin then true
       else P.orc i k.1 k.2
 
@@ -209,6 +216,7 @@ inductive Op where
   | query (n : Nat)               -- Monitor.LatestMetrics(name)
   | tick                          -- one tick of Watch
   | checkPeers (l : List Nat)     -- Checker.CheckPeers(l)
+  | advance (d : Nat)             -- the clock moves on by `d`
   deriving DecidableEq, Repr
 
 /-- What is observed at an operation. -/
@@ -231,6 +239,7 @@ def step (P : Params) (i : Nat) (s : State) : Op → State × Obs
   | .query n => (s, .metrics ((latestMetrics s n).map (fun m => (m.peer, m.id))) true)
   | .tick => let r := tick P i s; (r.1, .check r.2 (forgotten s r.1))
   | .checkPeers l => let r := checkPeers P i s l; (r.1, .check r.2 (forgotten s r.1))
+  | .advance d => ({ s with now := s.now + d }, .silent)
 
 /-- observations of a history run from state `s`, the first op having index `i` -/
 def runFrom (P : Params) : Nat → State → List Op → List Obs
@@ -246,10 +255,15 @@ structure Input where
   maxA : Nat               -- MaxAlertThreshold
   ps0  : Peerset           -- peerset at the start
   ops  : List Op
+  t0   : Nat := 0          -- the clock at the start
   deriving Repr
 
 def run (i : Input) (orc : Nat → Nat → Nat → Bool) : List Obs :=
-  runFrom { cap := i.cap, maxA := i.maxA, orc := orc } 0 (State.init i.ps0) i.ops
+  runFrom { cap := i.cap, maxA := i.maxA, orc := orc } 0 (State.init i.ps0 i.t0) i.ops
+
+/-- the clock when the op at position `j` of the history runs -/
+def clockAt (t0 : Nat) (ops : List Op) (j : Nat) : Nat :=
+  (ops.take j).foldl (fun t op => match op with | .advance d => t + d | _ => t) t0
 
 /-- same observation up to the order of what came out of Go maps -/
 def Obs.same : Obs → Obs → Bool
@@ -266,6 +280,70 @@ def sameAll : List Obs → List Obs → Bool
 
 /-- The relation: `out` is what the code may show on `i` under oracle `orc`. -/
 def allowed (i : Input) (orc : Nat → Nat → Nat → Bool) (out : List Obs) : Bool := sameAll (run i orc) out
+
+
+/-! ### the receive path of pubsubmon (`logFromPubsub`)
+
+`msg := subscription.Next(); err := decode(msg.Data, &metric); if err != nil { continue }; LogMetric(&metric)`.
+A payload is classified by what the msgpack decoder does with it (the harness sends concrete byte
+strings of every class through real pubsub): the encoding `PublishMetric` produces — also with unknown
+extra keys, trailing bytes, as a positional array, with any `ReceivedAt` (`Window.Add` overwrites it) —
+decodes to the metric; `nil`, an empty map and an empty array decode WITHOUT error to the zero
+`api.Metric` (name "", peer "", not valid, `Expire = 0`), which is stored like any other; everything
+else (truncated, empty, not a map/array, a field of the wrong type, a peer that is no peer ID) is an
+error and the message is dropped. The sender of the message is not compared with `metric.Peer`. -/
+inductive Payload where
+  | wellFormed (name peer : Nat) (valid : Bool) (expire : Nat)
+  | zeroValue
+  | malformed
+  deriving DecidableEq, Repr
+
+/-- the indices standing for the empty metric name and the empty peer ID -/
+def emptyName : Nat := 7
+def emptyPeer : Nat := 13
+
+/-- the decoder; `id` is the stamp the arrival gets (its position) -/
+def decode (id : Nat) : Payload → Option Metric
+  | .wellFormed n p v e => some { id := id, name := n, peer := p, valid := v, expire := e }
+  | .zeroValue => some { id := id, name := emptyName, peer := emptyPeer, valid := false, expire := 0 }
+  | .malformed => none
+
+/-- surface operations: those of `Op`, or a message arriving on the topic -/
+inductive ROp where
+  | op (o : Op)
+  | recv (p : Payload)
+  deriving Repr
+
+/-- one iteration of `logFromPubsub` for the message at position `i`: decode, on error `continue`
+    (nothing happens: `advance 0` keeps the positions), else `LogMetric` -/
+def lowerOne (i : Nat) : ROp → Op
+  | .op o => o
+  | .recv p => match decode i p with
+    | some m => .add m
+    | none => .advance 0
+
+def lower : Nat → List ROp → List Op
+  | _, [] => []
+  | i, r :: rs => lowerOne i r :: lower (i + 1) rs
+
+/-! ### `Checker.Watch` as a recurrence
+
+`ticker := time.NewTicker(interval)`; on every tick: `peers, err := peersF(ctx)`, on error skip the
+round, else `CheckPeers(peers)` (`CheckAll` when `peersF` is nil) — that is `Op.tick`. `watchOps iv off`
+puts the ticks into a history: `off` is the time since the last tick, every `advance` is cut at the
+tick instants. -/
+def watchSplit (iv off d : Nat) : List Op :=
+  if off + d < iv then [.advance d]
+  else [.advance (iv - off), .tick] ++ (List.replicate ((off + d) / iv - 1) [Op.advance iv, Op.tick]).flatten ++
+    [.advance ((off + d) % iv)]
+
+def watchOps (iv : Nat) : Nat → List Op → List Op
+  | _, [] => []
+  | off, .advance d :: ops => watchSplit iv off d ++ watchOps iv ((off + d) % iv) ops
+  | off, op :: ops => op :: watchOps iv off ops
+
+/-- total time a stretch of history takes -/
+def advSum (ops : List Op) : Nat := (ops.map (fun op => match op with | .advance d => d | _ => 0)).sum
 
 /-! ### The publish loops of cluster.go as recurrences
 
